@@ -11,6 +11,7 @@ case "$FLAV" in
   mc)        CFLAGS="-O1 -g -fno-omit-frame-pointer"; SAN="";;
   mc-asan)   CFLAGS="-O1 -g -fno-omit-frame-pointer -fsanitize=address,undefined -fno-sanitize-recover=undefined -fno-sanitize=alignment"; SAN=1;;
   mc-nobar)  CFLAGS="-O1 -g -fno-omit-frame-pointer -DABTMC_NO_PTHREAD_BARRIER"; SAN="";;
+  free-tsan) CC=clang; CFLAGS="-O1 -g -fno-omit-frame-pointer -fsanitize=thread -DABTMC_PASSTHROUGH"; SAN=2;;
   *) echo "unknown flavour $FLAV" >&2; exit 2;;
 esac
 HOOK="-DABT_CONFIG_VERIF_MC -include $V/engine/abtmc_hooks.h"
@@ -55,10 +56,12 @@ compile() {
 export -f compile; export B CC INC HOOK CFLAGS; export EXTRA="$*"
 echo "$SRCS" | xargs -P 16 -I{} bash -c 'compile {}' || { echo "libabt build failed" >&2; rm -rf $B; exit 2; }
 $CC $INC $CFLAGS -c arch/fcontext/fcontext_x86_64_sysv_elf_gas.S -o $B/obj/fcontext.o
+if [ "$FLAV" != "free-tsan" ]; then
 for o in $B/obj/*.o; do
   [ "$o" = "$B/obj/fcontext.o" ] && continue
   objcopy --redefine-syms=$V/engine/libc_map.txt $o
 done
+fi
 ar rcs $B/libabt.a $B/obj/*.o
 touch $B/.used
 echo $B
